@@ -7,6 +7,11 @@ class AliasError(Exception):
     pass
 
 
+# CPython interns the empty tuple, so every empty vector "shares" one storage object.
+# A write to an empty vector cannot alias anything: empty storage is never tracked.
+_EMPTY_TUPLE_ID = id(())
+
+
 class _AliasTracker:
     """
     Tracks which Vector instances reference the same underlying tuple.
@@ -31,6 +36,9 @@ class _AliasTracker:
         """
         Register a Vector as sharing the tuple with key tuple_id.
         """
+        if tuple_id == _EMPTY_TUPLE_ID:
+            return
+
         refs = self._registry.setdefault(tuple_id, [])
         
         # clean dead refs before adding
@@ -77,6 +85,9 @@ class _AliasTracker:
         Returns True if vec is the *only* owner of tuple_id.
         Otherwise raises AliasError.
         """
+        if tuple_id == _EMPTY_TUPLE_ID:
+            return True
+
         refs = self._registry.get(tuple_id)
         if not refs:
             return True  # nothing registered → writable
